@@ -411,6 +411,18 @@ def _r4(rc: RuleCtx, m: rm.LoopModel):
     except Unsupported as e:
         raise AnalysisError(f"rdp.compute_removed_points: not modelled: {e}")
     val = out.value()
+    if isinstance(val, PW):
+        # an early exit with an empty table for a reduction without any segment (fewer than two retained points) is the same table:
+        # the row block is empty there
+        rest = []
+        for g_, v_ in val.cases:
+            empty_ = (isinstance(v_, Vec) and not v_.items) or (isinstance(v_, Rat) and single_atom(v_) is not None and single_atom(v_).name in ("np.array", "np.empty")
+                                                                 and (not single_atom(v_).args or single_atom(v_).args[0].is_zero()))
+            if empty_ and (g_implies(g_, canon_sign(sym("R") - C(1), OPS["<="])) or g_implies(g_, canon_sign(sym("R") - C(2), OPS["<"]))):        # (R is an integer)
+                continue
+            rest.append((g_, v_))
+        if len(rest) == 1:
+            val = rest[0][1]
     if not (isinstance(val, Vec) and val.kind == "list"):
         raise AnalysisError(f"rdp.compute_removed_points: the table is not a summarised sequence ({_short(val, 80)}; {ev.summary_log[-1:]}) - shape not recognised")
     at = lambda x, i: anf.opaque("at", x, i, array=False)  # noqa: E731
@@ -426,7 +438,9 @@ def _r4(rc: RuleCtx, m: rm.LoopModel):
         from ..seqdom import Gen
         g0, w0 = got.items[0], want.items[0]
         if isinstance(g0, Gen) and g0.ranged and g0.lo.equals(w0.lo) and g0.hi.equals(w0.hi) and g0.step.equals(w0.step) and len(g0.parts) == 1 \
-                and g0.parts[0][0].kind == "true" and not g0.parts[0][2] and isinstance(g0.parts[0][1], Vec) and len(g0.parts[0][1].items) == 2:
+                and (g0.parts[0][0].kind == "true" or g_implies(canon_sign(g0.hi - g0.lo - C(1), OPS[">="]), g0.parts[0][0])) \
+                and not g0.parts[0][2] and isinstance(g0.parts[0][1], Vec) and len(g0.parts[0][1].items) == 2:
+            # (a condition that holds whenever the block has an iteration at all - `if len(reduced) >= 2` around the loop - conditions nothing)
             ok2 = all(isinstance(p_, Rat) and p_.equals(q_) for p_, q_ in zip(g0.parts[0][1].items, w0.parts[0][1].items))
     if ok2:
         res.ok("R4", "rdp.compute_removed_points", "one row [left, next - left - 1] per consecutive retained pair")
